@@ -176,7 +176,8 @@ pub fn eval(rng: &mut Rng, pats: &[(G, usize)], host: &G, heurs: &[Heur], o: &mu
             }).collect();
             o.case(sexp::l(vec![sexp::a("pg-cvec"), p.to_s(), sexp::a(r)]).to_string(), ok(S::L(canon)), p.live().len() >= 3);
             // per-pattern validation used by Theorem c01_portgraph_embedding: every link lies on a line, every node got a key
-            o.case(sexp::l(vec![sexp::a("pg-cover"), p.to_s(), sexp::a(r)]).to_string(), "(cover 1 keyed 1 sound 1 distinct 1 wf 1)".to_string(), p.live().len() >= 3);
+            let linked = p.links.iter().any(|&(a, _, b, _)| a == *r || b == *r);
+            o.case(sexp::l(vec![sexp::a("pg-cover"), p.to_s(), sexp::a(r)]).to_string(), format!("(cover 1 keyed 1 sound 1 distinct 1 wf 1 linked {})", if linked { 1 } else { 0 }), p.live().len() >= 3);
         }
         let cs_s = sexp::list(&cs, pgcons_s);
         all_css.push(cs_s.clone());
@@ -219,7 +220,7 @@ pub fn eval(rng: &mut Rng, pats: &[(G, usize)], host: &G, heurs: &[Heur], o: &mu
         if pats.len() == 1 && present[0] && crate::pg::n_index_roots(&pats[0].0, pats[0].1) <= 1 {
             o.case(sexp::l(vec![sexp::a("pg-ownkeys"), dump.clone(), pats[0].0.to_s(), sexp::a(pats[0].1)]).to_string(), "(keysin 1)".to_string(), built.n_states >= 3);
         }
-        o.case(sexp::l(vec![sexp::a("pg-cert"), dump, sexp::list(&present, |x| sexp::b(*x)), S::L(all_css.clone())]).to_string(), "(wf 1 sound 1 complete 1)".to_string(), built.n_states >= 3);
+        o.case(sexp::l(vec![sexp::a("pg-cert"), dump, sexp::list(&present, |x| sexp::b(*x)), S::L(all_css.clone())]).to_string(), "(wf 1 sound 1 complete 1 scopes () mkeys ())".to_string(), built.n_states >= 3);
     }
     o.count("pgm_patterns", pats.len());
 }
